@@ -39,6 +39,7 @@ struct VThread
   void* obj2;     // mutex of a condition wait
   int joinTarget;
   bool timed, tsValid;
+  long waitSeq;   // arrival order in the wait set of a condition variable
   long dsec, dnsec;
   OpKind gotKind; // kind of the operation that was scheduled (a signaller may turn CWAKE into RELOCK)
   int gotAlt;
@@ -58,6 +59,7 @@ static long nowSec, nowNsec, quantum;
 static int spurBudget, eintrBudget, nextTid = -1;
 static char trace[1 << 17]; static int tracen;
 static char flags[256];
+static long waitSeqCounter;
 static unsigned long long rs; static bool randomMode;
 static unsigned long long rnd() { rs ^= rs << 13; rs ^= rs >> 7; rs ^= rs << 17; return rs >> 11; }
 
@@ -79,11 +81,18 @@ static VSem* S(void* a)
 }
 static bool expired(const VThread& T) { return nowSec > T.dsec || (nowSec == T.dsec && nowNsec >= T.dnsec); }
 static bool lockable(VMutex* m, int t) { return m->owner == -1 || (m->owner == t && m->recursive); }
+// the wait set of a condition variable in arrival order
 static int waitersOf(void* c, int* out)
 {
   int n = 0;
   for(int t = 0; t < nth; ++t)
-    if(th[t].used && !th[t].finished && th[t].pend == OP_CWAKE && th[t].obj == c) { if(out) out[n] = t; ++n; }
+    if(th[t].used && !th[t].finished && th[t].pend == OP_CWAKE && th[t].obj == c)
+    {
+      int k = n++;
+      if(!out) continue;
+      while(k > 0 && th[out[k - 1]].waitSeq > th[t].waitSeq) { out[k] = out[k - 1]; --k; }
+      out[k] = t;
+    }
   return n;
 }
 
@@ -249,6 +258,7 @@ static int cwait(pthread_cond_t* c, pthread_mutex_t* m, const struct timespec* t
   point(OP_CWAIT_ENTER, c, m);                   // only enabled while the caller owns m
   if(!th[self].tsValid) { pthread_mutex_unlock(&G); return EINVAL; }
   VMutex* v = M(m); int saved = v->count; v->count = 0; v->owner = -1;   // atomically release and join the wait set
+  th[self].waitSeq = ++waitSeqCounter;
   int alt = point(OP_CWAKE, c, m);               // blocked: spurious (alt 0) / timed out (alt 1) / turned into RELOCK by signal, broadcast
   int rc = 0;
   if(th[self].gotKind == OP_CWAKE)
@@ -356,7 +366,7 @@ void sched_begin(int np, const int* pt, const int* pa, long sec, long nsec, long
   nprefix = np < SCHED_MAXPREFIX ? np : SCHED_MAXPREFIX;
   for(int i = 0; i < nprefix; ++i) { prefT[i] = pt[i]; prefA[i] = pa[i]; }
   stepIndex = 0; nowSec = sec; nowNsec = nsec; quantum = q; spurBudget = spur; eintrBudget = eintr;
-  nmtx = 0; nsems = 0; nth = 1; tracen = sprintf(trace, "init:"); flags[0] = 0; nextTid = -1;
+  waitSeqCounter = 0; nmtx = 0; nsems = 0; nth = 1; tracen = sprintf(trace, "init:"); flags[0] = 0; nextTid = -1;
   memset(th, 0, sizeof(th));
   th[0].used = true; sem_init(&th[0].go, 0, 0); self = 0;
 }
